@@ -385,6 +385,50 @@ def check_real_flow_large_population(chk):
         chk.fail("run total", case, repr(e)[:300], {"clause": "raise", "level": "real_flow_large_population"})
 
 
+def check_pooled_orders(chk):
+    """results of the same problem declared with the parameters in ANOTHER order (a rotation of three or more names) are pooled with
+    `concatenate`: the library may refuse, but a set it does hand back stores, in row i, the densities of the point row i names"""
+    from aspire.samples import Samples, SMCSamples
+
+    names = ["mass", "distance", "time", "phase"]
+    centre = {"mass": 0.5, "distance": -0.3, "time": 1.0, "phase": 2.0}
+
+    def like(x, order):
+        return -0.5 * sum((x[:, j] - centre[n_]) ** 2 / 0.25 for j, n_ in enumerate(order))
+
+    r = np.random.default_rng(14)
+    for K in (Samples, SMCSamples):
+        for nsn in NSS:
+            for perm in ([1, 2, 0], [2, 0, 1], [1, 0, 2], [1, 2, 3, 0], [3, 0, 1, 2]):
+                d = len(perm)
+                o1 = names[:d]
+                o2 = [o1[j] for j in perm]
+                case = {"level": "pooled_orders", "cls": K.__name__, "ns": nsn, "orders": [o1, o2]}
+                chk.count("pooled_orders")
+                chk.case(None, json.dumps(case))
+                xp, dt = ns.get_xp(nsn), ns.native_dtype(nsn, "f64")
+                sets = []
+                for o in (o1, o2):
+                    x = r.normal(0.4, 1.0, (6, d))
+                    kw = {"beta": 1.0} if K is SMCSamples else {}
+                    sets.append(K(x=x, parameters=list(o), log_likelihood=like(x, o), log_prior=np.zeros(6), xp=xp, dtype=dt, **kw))
+                try:
+                    u = K.concatenate(sets)
+                except ValueError:
+                    chk.count("pooled_orders:refused")
+                    continue
+                except Exception as e:   # noqa
+                    chk.fail("run total", case, repr(e)[:200], {"clause": "raise", "level": "pooled_orders"})
+                    continue
+                xu, llu = ns.to_np(u.x), ns.to_np(u.log_likelihood)
+                ref = like(xu, list(u.parameters))
+                if len(xu) != 12 or not np.allclose(llu, ref, rtol=1e-9, atol=1e-9):
+                    j = int(np.argmax(~np.isclose(llu, ref, rtol=1e-9, atol=1e-9))) if len(llu) == len(ref) else -1
+                    chk.fail("stored log-densities are L, pi, q at the row's coordinates", case,
+                             f"pooled set with parameters {list(u.parameters)}: row {j} stores log L = {llu[j] if j >= 0 else None!r}, the likelihood of the point it names is {ref[j] if j >= 0 else None!r}",
+                             {"clause": "coherent", "level": "pooled_orders", "field": "ll"})
+
+
 def check_second_analysis(chk):
     """the same `Aspire` object analyses a second data set with the same proposal and the same sampler configuration: the user replaces
     `log_likelihood` / `log_prior` (public attributes; `enable_pool` itself swaps them) between two `sample_posterior` calls.  Every set the
@@ -447,6 +491,7 @@ def run(chk: core.Check):
     check_reload(chk)
     check_resumed_objects(chk)
     check_second_analysis(chk)
+    check_pooled_orders(chk)
     check_real_flow_large_population(chk)
     for (case, ix, ilq, ilp), rep in zip(keep, drv.batch(lines)):
         if not rep.ok:
@@ -477,7 +522,7 @@ def replay(chk: core.Check, path: str) -> int:
     doc = json.loads(open(path).read())
     p = doc["payload"]
     cases = [p["case"]] if "case" in p else [d["case"] for d in p.get("correspondence", [])]
-    LEVELS = {"real_flow_large_population": check_real_flow_large_population, "second_analysis": check_second_analysis, "resumed_object": check_resumed_objects, "reload": check_reload,
+    LEVELS = {"pooled_orders": check_pooled_orders, "real_flow_large_population": check_real_flow_large_population, "second_analysis": check_second_analysis, "resumed_object": check_resumed_objects, "reload": check_reload,
               "pool": lambda k: check_pool(k, False)}
     for c in cases:
         if "cfg" in c:
